@@ -318,53 +318,57 @@ func c18Small(c *Ctx) {
 		return
 	}
 	names := fieldNames(structOf(un))
-	var got, want []string
 	var problems []string
-	m := c.machine()
-	var obj *fold.Obj
-	ps := m.Explore(f, func(mm *fold.Machine) []fold.Val {
-		s := fold.SymOfType("u", un).(fold.Struct)
-		uSet(s, L.utf8SourceP, fold.Iface{V: fold.Sym{Name: "old", NonNil: true}})
-		uSet(s, L.utf8StateP, fold.K(24))
-		uSet(s, L.utf8CodepP, fold.K(5))
-		uSet(s, L.utf8AcceptedP, fold.K(3))
-		obj = mm.NewObj("u", s)
-		return []fold.Val{fold.Ref{O: obj}, fold.Iface{V: fold.Sym{Name: "src", NonNil: true}}}
-	}, func(mm *fold.Machine, p *fold.Path) {
-		s, _ := mm.Load(fold.Ref{O: obj}).(fold.Struct)
-		for _, f := range s.F {
-			got = append(got, fold.Show(f))
-		}
-	})
-	ps2 := c.machine().Explore(ctor, func(mm *fold.Machine) []fold.Val {
-		return []fold.Val{fold.Iface{V: fold.Sym{Name: "src", NonNil: true}}}
-	}, nil)
-	for _, p := range append(ps, ps2...) {
-		if p.Abort != "" || p.Panic {
-			problems = append(problems, "undecided: "+p.Abort)
-		}
-	}
-	// constructor result
-	m3 := c.machine()
-	m3.Explore(ctor, func(mm *fold.Machine) []fold.Val {
-		return []fold.Val{fold.Iface{V: fold.Sym{Name: "src", NonNil: true}}}
-	}, func(mm *fold.Machine, p *fold.Path) {
-		if r, ok := p.Ret.(fold.Ref); ok {
-			s, _ := mm.Load(fold.Ref{O: r.O}).(fold.Struct)
+	// with a source, and with nil (detach): a nil source has no meaning of its own
+	for _, srcVal := range []fold.Val{fold.Iface{V: fold.Sym{Name: "src", NonNil: true}}, fold.Nil{}} {
+		srcVal := srcVal
+		var got, want []string
+		m := c.machine()
+		var obj *fold.Obj
+		ps := m.Explore(f, func(mm *fold.Machine) []fold.Val {
+			s := fold.SymOfType("u", un).(fold.Struct)
+			uSet(s, L.utf8SourceP, fold.Iface{V: fold.Sym{Name: "old", NonNil: true}})
+			uSet(s, L.utf8StateP, fold.K(24))
+			uSet(s, L.utf8CodepP, fold.K(5))
+			uSet(s, L.utf8AcceptedP, fold.K(3))
+			obj = mm.NewObj("u", s)
+			return []fold.Val{fold.Ref{O: obj}, srcVal}
+		}, func(mm *fold.Machine, p *fold.Path) {
+			s, _ := mm.Load(fold.Ref{O: obj}).(fold.Struct)
 			for _, f := range s.F {
-				want = append(want, fold.Show(f))
+				got = append(got, fold.Show(f))
+			}
+		})
+		ps2 := c.machine().Explore(ctor, func(mm *fold.Machine) []fold.Val {
+			return []fold.Val{srcVal}
+		}, nil)
+		for _, p := range append(ps, ps2...) {
+			if p.Abort != "" || p.Panic {
+				problems = append(problems, "undecided: "+p.Abort)
 			}
 		}
-	})
-	if len(problems) == 0 && (len(got) != len(want) || len(got) == 0) {
-		problems = append(problems, "undecided: could not render fields")
-	}
-	for i := range got {
-		if len(problems) > 0 {
-			break
+		// constructor result
+		m3 := c.machine()
+		m3.Explore(ctor, func(mm *fold.Machine) []fold.Val {
+			return []fold.Val{srcVal}
+		}, func(mm *fold.Machine, p *fold.Path) {
+			if r, ok := p.Ret.(fold.Ref); ok {
+				s, _ := mm.Load(fold.Ref{O: r.O}).(fold.Struct)
+				for _, f := range s.F {
+					want = append(want, fold.Show(f))
+				}
+			}
+		})
+		if len(problems) == 0 && (len(got) != len(want) || len(got) == 0) {
+			problems = append(problems, "undecided: could not render fields")
 		}
-		if got[i] != want[i] {
-			problems = append(problems, fmt.Sprintf("after Reset field %q is %s, a new UTF8Reader has %s", names[i], got[i], want[i]))
+		for i := range got {
+			if len(problems) > 0 {
+				break
+			}
+			if got[i] != want[i] {
+				problems = append(problems, fmt.Sprintf("after Reset(%s) field %q is %s, a new UTF8Reader has %s", fold.Show(srcVal), names[i], got[i], want[i]))
+			}
 		}
 	}
 	c.verdict(rule, rule+"/UTF8Reader.Reset", c.P.FuncPos(f), uniq(problems), "every field equals a new reader's")
